@@ -43,3 +43,35 @@ Theorem C14_interactive_writer_partial :
   match f_out e with Some f => complete f = true | None => False end.
 Proof. exact interactive_writer_complete. Qed.
 Print Assumptions C14_interactive_writer_partial.
+
+(* ---- the file executor at point level (Model/FileExec.v: client, loop thread, one process per
+   started call, the cache directory; tied to the code by lockstep incl. several sessions and killed
+   processes).  Proofs/FileSafe.v.  Transitions: any step of any thread or process, or the kill
+   of a process from outside; initial directory fs0 arbitrary (whatever earlier runs left). ---- *)
+From EL Require Import Model.Exec Model.ExecInv Model.StepExec Model.FileExec Model.FileSpec Proofs.FileSafe.
+
+(* leftover files never wedge the executor: from ANY initial directory the loop thread never dies,
+   and at most one process works on a key, none while a result file exists *)
+Theorem C14_leftovers_never_wedge_the_loop :
+  forall c n prog fs0 s,
+    nocancel prog = true -> wf_prog n prog -> FileSafe.freach c (finit n prog fs0) s ->
+    procs_ok s = true /\ prep_ok s = true /\ loop_alive s = true.
+Proof. exact file_inv. Qed.
+Print Assumptions C14_leftovers_never_wedge_the_loop.
+
+(* what the loop accepts as a result is only ever a file that holds the output, and it completes
+   the future of that call with that call's value (the acceptance test of f_step: GOpenOut reads
+   only when the output dataset is there) *)
+Theorem C14_accepted_result_is_the_calls_own :
+  forall c n prog fs0 s t s' f v,
+    FileSafe.freach c (finit n prog fs0) s -> fstep c s t = Some (s', FL (LSetRes f v)) -> v = fcanon c f.
+Proof. exact setres_own_value. Qed.
+Print Assumptions C14_accepted_result_is_the_calls_own.
+
+(* killing a process at any moment never alters a completed entry *)
+Theorem C14_kill_never_alters_completed_entry :
+  forall c n prog fs0 s m,
+    nocancel prog = true -> wf_prog n prog -> fs_wf fs0 ->
+    FileSafe.freach c (finit n prog fs0) s -> outs_kept (fsy s) (fsy (kill_proc s m)) = true.
+Proof. intros c n prog fs0 s m H1 H2 H3 H4. eapply outs_never_altered; eauto. apply ft_kill. Qed.
+Print Assumptions C14_kill_never_alters_completed_entry.
